@@ -64,6 +64,9 @@ CLAIMED = {
     "C16": ("differential testing across transports: the same generated channel program on popen (reference), python=, via and socket gateways for thread / main_thread_only / gevent workers; per-run transcript oracle plus equality of normalised transcripts",
             "Generated schedule-independent channel programs (typed payloads up to 300 KB / 8 MB, sub-channels, callbacks, raising bodies and callbacks, close/end/raise stream ends) are run unchanged on a direct popen gateway and on the python=, via and socket transports for each remote execmodel; every run must satisfy its own transcript oracle and its normalised transcript must equal the reference transport's.",
             "Real workers, OS schedule not owned; only schedule-independent programs are compared; racy send outcomes are normalised away. Control path (terminate/kill through a proxy) is covered by C05.", "3/C16"),
+    "C17": ("model-based histories over generated file trees (source tree, prior target states, delete flag, 1-3 targets, caller cwd, modify-and-resync steps) on real gateways; independent tree-walker oracle and no-transfer oracle for re-syncs",
+            "Generated source trees with awkward names, modes, mtimes and every symlink flavour are synced onto generated prior target states (incl. entries of another kind), with and without delete, to up to three targets, from four working directories, followed by generated modify/re-sync steps and a final re-sync; an independent snapshot walker checks kind, bytes, permission bits, mtimes, the symlink rule, deletion/preservation of foreign entries, and that an unchanged re-sync transfers and changes nothing.",
+            "Sampling. Runs as root (mode bits stored, not enforced). Quick-check coincidences (same size and mtime, other content) are excluded by construction and counted.", "3/C17"),
 }
 
 NOT_APPLICABLE = {}
